@@ -40,6 +40,7 @@ type Conn struct {
 	mu      sync.Mutex
 	log     []RecvEvent
 	rawRead int64
+	sentLog []SentEvent
 	readErr error
 
 	q      chan Frame
@@ -152,15 +153,40 @@ func (p *Conn) LogLen() int {
 // StallReads makes the reader stop consuming (the library's writes then back up).
 func (p *Conn) StallReads(on bool) { p.stallRead.Store(on) }
 
-// Send writes the frames back-to-back in ONE write call.
+// SentEvent is one frame the peer wrote, in write order.
+type SentEvent struct {
+	Idx   int
+	At    time.Duration
+	Frame Frame
+}
+
+// Send writes the frames back-to-back in ONE write call and records them in the sent log (write order).
 func (p *Conn) Send(frames ...Frame) error {
 	var b []byte
 	for _, f := range frames {
 		b = append(b, f.Bytes()...)
 	}
 	p.sent.Add(int64(len(frames)))
+	p.wmu.Lock()
+	defer p.wmu.Unlock()
+	_ = p.C.SetWriteDeadline(time.Now().Add(20 * time.Second))
+	_, err := p.C.Write(b)
+	now := Now()
+	p.mu.Lock()
+	for _, f := range frames {
+		p.sentLog = append(p.sentLog, SentEvent{Idx: len(p.sentLog), At: now, Frame: f})
+	}
+	p.mu.Unlock()
 
-	return p.SendRaw(b)
+	return err
+}
+
+// SentLog returns a copy of the frames written through Send, in write order.
+func (p *Conn) SentLog() []SentEvent {
+	p.mu.Lock()
+	defer p.mu.Unlock()
+
+	return append([]SentEvent(nil), p.sentLog...)
 }
 
 // SendRaw writes raw bytes in one write call.
